@@ -242,6 +242,7 @@ void Engine::exec_op(const J &op, int task, int idx) {
 	rec.wire_before = bus.wire.size();
 	apis++;
 	if (k == "sleep") { sim::sleep_us((uint64_t) op.geti("us", op.geti("ms", 1) * 1000)); return; }
+	if (k == "repeat") { const J &body = op["body"]; int64_t every = op.geti("sleep_every", 0); for (int64_t i = 0, n = op.geti("n", 1); i < n; i++) { exec_op(body, task, idx); if (every > 0 && i % every == every - 1) sim::sleep_us((uint64_t) op.geti("sleep_us", 5000)); } return; }   // long histories without long plans
 	if (k == "quiesce") { flush_and_quiesce(op.getb("flush", true)); return; }
 	if (k == "drain") {
 		// read a queue until it is empty (bounded)
